@@ -355,6 +355,17 @@ func init() {
 					}
 				}
 			}
+			// a umask that leaves no permission bit: files, configuration files and rpm-only kinds without a
+			// declared mode are shipped with mode 0 (denoted is denoted), declared modes stay (directories are left out: for
+			// them a mode of 0 reads as "not set" and the default applies, which the documentation does not settle)
+			for _, um := range []os.FileMode{0o777, 0o677, 0o177} {
+				l := []model.Entry{{Src: "bin/app", Dst: "/usr/bin/app"}, {Src: "etc/app.conf", Dst: "/etc/app.conf", Type: "config"}, {Src: "etc/conf.d/b.conf", Dst: "/etc/b.conf", Type: "config|noreplace"},
+					{Src: "doc/README", Dst: "/usr/share/doc/app/README", Type: "readme"}, {Src: "doc/LICENSE", Dst: "/usr/share/licenses/app/LICENSE", Type: "license"},
+					{Src: "share/ww.txt", Dst: "/opt/declared.txt", Mode: 0o640}}
+				if !yield(C01Case{Setting: Setting{Name: fmt.Sprintf("umask=%04o", um), Umask: um}, List: l}) {
+					return
+				}
+			}
 			// times outside the usual years - before the epoch, exactly the epoch, beyond 2^31 and beyond 2^32 seconds - on
 			// disk, configured for the package, configured for an entry. A format whose fields cannot hold such a time may
 			// refuse to build; a package that is built states the time
